@@ -17,6 +17,7 @@ type c34Stream struct {
 	panicAt int // Read call number that panics (0: never)
 	reads   int
 	closed  int
+	eofWithData bool // the Read that hands over the last bytes also returns io.EOF
 }
 
 func (s *c34Stream) Read(p []byte) (int, error) {
@@ -36,6 +37,9 @@ func (s *c34Stream) Read(p []byte) (int, error) {
 	}
 	copy(p, s.data[s.pos:s.pos+n])
 	s.pos += n
+	if s.eofWithData && s.pos >= len(s.data) {
+		return n, io.EOF
+	}
 	return n, nil
 }
 
@@ -69,6 +73,7 @@ func vhC34ResponseStream() {
 		st.chunk = 1
 	}
 	st.panicAt = vChoose("panicAt", 3)
+	st.eofWithData = vBool("lastBytesComeWithEOF")
 	size := len(data)
 	if vBool("unknownSize") {
 		size = -1
@@ -142,4 +147,54 @@ func vhC34CompressedStream() {
 	time.Sleep(10 * time.Millisecond)
 	vAssert("original-stream-closed-exactly-once", orig.closed == 1)
 	vAssert("prefix-read-is-a-prefix", len(got) <= len(data) && string(got) == string(data[:len(got)]))
+}
+
+// vhC34RequestStream: the client side of the same clause — a request body
+// stream of unknown or exact size, written by the real Request.Write (chunked
+// or fixed length): what goes on the wire decodes to exactly the stream's
+// bytes, and the stream is closed exactly once.
+func vhC34RequestStream() {
+	data := c05Sym("data", vParam("dataLen", 4))
+	st := &c34Stream{data: data}
+	if vBool("byteAtATime") {
+		st.chunk = 1
+	}
+	st.eofWithData = vBool("lastBytesComeWithEOF")
+	size := len(data)
+	if vBool("unknownSize") {
+		size = -1
+	}
+	var req Request
+	req.Header.SetMethod(MethodPost)
+	req.SetRequestURI("http://a.co/up")
+	req.SetBodyStream(st, size)
+	var wire []byte
+	w := &c34Sink{out: &wire}
+	bw := bufio.NewWriter(w)
+	err := req.Write(bw)
+	bw.Flush() //nolint:errcheck
+	vAssert("request-written", err == nil)
+	vAssert("stream-closed-exactly-once", st.closed == 1)
+	// read it back with the server-side reader
+	var back Request
+	rerr := back.Read(bufio.NewReader(&c34Src{b: wire}))
+	vAssert("peer-receives-exactly-the-stream", rerr == nil && string(back.Body()) == string(data))
+}
+
+type c34Sink struct{ out *[]byte }
+
+func (s *c34Sink) Write(b []byte) (int, error) { *s.out = append(*s.out, b...); return len(b), nil }
+
+type c34Src struct {
+	b []byte
+	i int
+}
+
+func (s *c34Src) Read(p []byte) (int, error) {
+	if s.i >= len(s.b) {
+		return 0, io.EOF
+	}
+	n := copy(p, s.b[s.i:])
+	s.i += n
+	return n, nil
 }
